@@ -223,9 +223,19 @@ impl Property for C05 {
     }
 
     fn run(case: &Scenario) -> Outcome {
-        let cfg = SimCfg { auto_settle: false, ..Default::default() };
+        // a quarter of the histories run with 2-byte partial writes and back-pressure, so that
+        // both sources of the select loop can be ready at once
+        let pressure = case_hash(case) % 4 == 0;
+        let cfg = SimCfg {
+            auto_settle: false,
+            write: if pressure { WritePlan { per_call: 2, stall: Some(3) } } else { WritePlan::default() },
+            ..Default::default()
+        };
         let out = run(case, &cfg);
         let mut o = Outcome::ok();
+        if pressure {
+            o.class("write-back-pressure");
+        }
         o.nontrivial = out.stats.max_outstanding_ops >= 2 && out.stats.ack_inversions >= 1;
         o.class(format!("max-outstanding-{}", out.stats.max_outstanding_ops.min(8)));
         if out.stats.ack_inversions > 0 {
@@ -554,10 +564,24 @@ impl Property for C10 {
         ];
         let depth = tier.pick(6, 8);
         let a2 = alphabet.clone();
+        // Receive Maximum absent / 65535: a history that really fills all 65535 slots, is
+        // refused at the 65536th, frees one slot and is accepted again (thorough tier)
+        let mut fill = vec![];
+        if tier == Tier::Thorough && worker < 2 {
+            let mut events = vec![];
+            for i in 0..65_536u32 {
+                events.push(Ev::Start { h: 0, kind: if i % 2 == 0 { OpKind::Pub1 } else { OpKind::Pub2 }, settle: false });
+            }
+            events.push(Ev::In(Inbound::Ack { sel: 30000, deco: ok }));
+            events.push(Ev::Start { h: 0, kind: OpKind::Pub1, settle: false });
+            events.push(Ev::Start { h: 0, kind: OpKind::Pub2, settle: false });
+            fill.push(Scenario { receive_max: if worker == 0 { None } else { Some(65535) }, max_packet_size: None, events });
+        }
         Box::new(
             sequences(alphabet, depth, worker, workers)
                 .map(|events| Scenario { receive_max: Some(1), max_packet_size: None, events })
-                .chain(sequences(a2, depth, worker, workers).map(|events| Scenario { receive_max: Some(2), max_packet_size: None, events })),
+                .chain(sequences(a2, depth, worker, workers).map(|events| Scenario { receive_max: Some(2), max_packet_size: None, events }))
+                .chain(fill),
         )
     }
 
@@ -649,17 +673,29 @@ impl Property for C14 {
                 break;
             }
         }
-        // dropping the context after run() returned
-        if o.fail.is_none() {
+        // dropping the context after run() returned, for several terminating causes
+        let causes = [
+            Cause::Eof,
+            Cause::ReadErr,
+            Cause::WriteErr,
+            Cause::UserDisconnect(DisconnectSpec::default()),
+            Cause::ServerDisconnect(rc::Disconnect { reason: 0x8b, ..Default::default() }, true),
+            Cause::ServerDisconnect(rc::Disconnect::default(), true),
+            Cause::Garbage(vec![0x00, 0x00]),
+        ];
+        for cause in causes {
+            if o.fail.is_some() {
+                break;
+            }
             let mut events = case.events.clone();
-            events.push(Ev::Terminate(Cause::Eof));
+            events.push(Ev::Terminate(cause.clone()));
             events.push(Ev::Settle);
             events.push(Ev::DropCtx);
             let scn = Scenario { receive_max: case.receive_max, max_packet_size: None, events };
             let out = run(&scn, &cfg);
-            o.class("drop-after-run-returned");
+            o.class(format!("drop-after-run-returned-{}", cause_name(&cause)));
             if let Some(mut f) = failure_for(&out, &["C14/"]) {
-                f.msg = format!("context dropped after run() returned (EOF): {}", f.msg);
+                f.msg = format!("context dropped after run() returned ({}): {}", cause_name(&cause), f.msg);
                 o.fail = Some(f);
             }
         }
@@ -992,7 +1028,7 @@ pub struct C16Case {
 
 impl Property for C16 {
     const ID: &'static str = "C16";
-    const RULE: &'static str = "quiescent-stepping scripts (operations of every kind, acknowledgements, inbound messages, stream polls; Receive Maximum 65535 so no quota-edge races) each executed under {wake-only; wake-only + sweep polling every task after every event; wake-only + spurious polls at generated positions; sweep-at-every-quiescent-point-must-change-nothing} x {whole-packet reads, 1-byte reads} x {full writes, 3-byte partial writes with back-pressure}; per-source projections (packets per operation, acknowledgement sequence, every result, every stream's items, run()) must be equal across all runs. Non-trivial = >= 1 inbound packet split over reads and >= 1 operation completing";
+    const RULE: &'static str = "quiescent-stepping scripts (operations of every kind, acknowledgements, inbound messages, stream polls; Receive Maximum 65535 so no quota-edge races) each executed under {wake-only; wake-only + sweep polling every task after every event; wake-only + spurious polls at generated positions; sweep-at-every-quiescent-point-must-change-nothing} x {whole-packet reads, 1-byte reads, reader capped at 3 bytes that returns Pending (self-waking) before every delivery} x {full writes, 3-byte partial writes with back-pressure}; per-source projections (packets per operation, acknowledgement sequence, every result, every stream's items, run()) must be equal across all runs. Non-trivial = >= 1 inbound packet split over reads and >= 1 operation completing";
     type Case = C16Case;
 
     fn strategy(tier: Tier) -> BoxedStrategy<C16Case> {
@@ -1054,14 +1090,17 @@ impl Property for C16 {
         let mut split = 0;
         let writes = [WritePlan::default(), WritePlan { per_call: 3, stall: Some(5) }];
         for (di, disc) in ["wake-only", "sweep-after-event", "spurious-polls", "sweep-at-quiescence"].iter().enumerate() {
-            for chunk in [0u16, 1] {
+            for rd in [0u16, 1, 2] {
+                let chunk = if rd == 1 { 1 } else { 0 };
                 for (wi, wp) in writes.iter().enumerate() {
-                    if di == 0 && chunk == 0 && wi == 0 {
+                    if di == 0 && rd == 0 && wi == 0 {
                         continue;
                     }
                     let cfg = SimCfg {
                         auto_settle: true,
                         sweep_after_event: di == 1,
+                        read_cap: if rd == 2 { 3 } else { 0 },
+                        read_yield: rd == 2,
                         read_chunk: chunk,
                         write: wp.clone(),
                         drain_streams: false,
@@ -1072,7 +1111,7 @@ impl Property for C16 {
                     let out = run(scn, &cfg);
                     completions = completions.max(out.stats.completions);
                     split = split.max(out.stats.split_packets);
-                    let label = format!("{disc}/read-chunk-{chunk}/write-{}", if wi == 0 { "full" } else { "partial+pending" });
+                    let label = format!("{disc}/read-{}/write-{}", ["whole", "1-byte", "cap3+yielding-reader"][rd as usize], if wi == 0 { "full" } else { "partial+pending" });
                     if let Some(mut f) = failure_for(&out, &["C16/", "C03/"]) {
                         f.msg = format!("[{label}] {}", f.msg);
                         o.fail = Some(f);
